@@ -20,7 +20,7 @@ func runSurveyorScenario(c *Ctx, nops int, zeroTime bool) {
 	next := 800
 	ctxs := []int{0}
 	closedCtx := map[int]bool{}
-	cur := map[int]uint32{}      // ctx -> canonical id of its current survey
+	cur := map[int]uint32{} // ctx -> canonical id of its current survey
 	started := map[uint32]time.Time{}
 	survTime := map[int]int{0: 1000}
 	idTime := map[uint32]int{}
